@@ -253,6 +253,7 @@ def r09_3(ctx, m):
     pa = m.pa
     rn = sc.returned_names(pa)
     where = pa.where()
+    sc.orientation_counts_rule(ctx, pa, "R09.3")
     # ---- sn
     sn_var = None
     for v in rn:
@@ -339,7 +340,6 @@ def r09_3(ctx, m):
         if v != want:
             bad = {"count('>')": env["fwd"], "count('<')": env["rev"], "iv": int(v), "required": int(want)}
     ctx.check(bad is None and bool(guards), "R09.3", pa.where(one), "decision table of iv over the two scaffold-orientation counts: iv = 1 exactly when both orientations occur", key_of(pa, f"iv-table:{[norm(t) for t, _ in guards]}"), rows=rows, **({"witness": bad} if bad else {}))
-    sc.orientation_counts_rule(ctx, pa, "R09.3")
     # the orientation list receives an orientation only for scaffold nodes (NO == 0) that are tagged
     olist = None
     for c in walk_own(pa.node):
